@@ -37,6 +37,12 @@ inductive Rhs (α : Type) where
   | tensor (T : Dense α)
   deriving Repr, BEq
 
+/-- An empty array given as right-hand side. -/
+def Rhs.isEmptyValue {α : Type} : Rhs α → Bool
+  | .col vs => vs.isEmpty
+  | .arr T => T.data.isEmpty
+  | _ => false
+
 /-- What a read returns: a Python scalar, a vector of values, or a tensor object. -/
 inductive ReadOut (α : Type) where
   | scalar (v : α)
@@ -54,7 +60,7 @@ inductive StepOut (α : Type) where
   | rejected
   | written
   | value (r : ReadOut α)
-  deriving BEq, Repr
+  deriving BEq, Repr, DecidableEq
 
 /-- `range(len)[a:b:c]` as a list (Python slice semantics: negative bounds count from
 the end, bounds are clipped, a zero step is an error). -/
